@@ -71,7 +71,7 @@ class Doc:
         self.span['class'] = ['zq9-span']
         self.p.append(self.span)
         root.append(self.p)
-        self.decoys = [self.soup.new_tag('p') for _ in range(6)]
+        self.decoys = [self.soup.new_tag('p') for _ in range(8)]
         for d in self.decoys:
             sp = self.soup.new_tag('span')
             sp['class'] = ['zq9-span']
@@ -82,6 +82,9 @@ class Doc:
         # a second target whose class attribute is a plain string (XML documents, hand-assigned values)
         self.q = self.soup.new_tag('q')
         root.append(self.q)
+        # a third target whose attribute keys are not lower-case (only the API can store them; HTML names are case-insensitive)
+        self.r = self.soup.new_tag('i')
+        root.append(self.r)
 
     def set(self, value, escaped):
         def put(el, v):
@@ -93,7 +96,12 @@ class Doc:
         self.strclass = not any(c in ' \t\n\r\f' for c in value) and value != ''
         if self.strclass:
             self.q['class'] = value                  # one class token by CSS rules (no CSS white space inside)
-        alts = [value + 'x', 'x' + value, value[:-1], value[1:], escaped if escaped != value else value + '\\', value.swapcase()]
+        self.r.attrs.clear()
+        self.r['ID'] = value
+        self.r['Class'] = [value]
+        self.r['A'] = value
+        alts = [value + 'x', 'x' + value, value[:-1], value[1:], escaped if escaped != value else value + '\\', value.swapcase(),
+                value + '\n', '\n' + value]
         for d, v in zip(self.decoys, alts):
             put(d, v if v != value else v + '~')
 
@@ -107,7 +115,8 @@ def check_string(sv, doc, s):
         return 'escape(%s) returned %r' % (ascii(s), esc)
     value = s.replace('\x00', '�')
     doc.set(value, esc)
-    forms = [('[type=' + esc + ']', []), ('#' + esc, [doc.p]), ('.' + esc, [doc.p] + ([doc.q] if doc.strclass else [])), ('[a=' + esc + ']', [doc.p]), ('p#' + esc + ' > span.zq9-span', [doc.span]),
+    forms = [('[type=' + esc + ']', []), ('#' + esc, [doc.p, doc.r]), ('.' + esc, [doc.p] + ([doc.q] if doc.strclass else []) + [doc.r]),
+             ('[a=' + esc + ']', [doc.p, doc.r]), ('p#' + esc + ' > span.zq9-span', [doc.span]),
              ('b, .' + esc + ' span', [doc.span, doc.tail])]
     for text, want in forms:
         st, got = monitors.guarded_call(sv.select, text, doc.soup, budget=5.0)
